@@ -12,7 +12,7 @@ def run(rep):
     q = rep.tier == 'quick'
     fw.standin(rep, 'difftest.py', ['run', 'F2', rep.seed + 1, 6000 if q else 40000, '--max-depth', 4],
                'translation validation: compiled ;/->/\\+ bodies vs reference interpreter',
-               'random body trees depth<=%d' % (3 if q else 4))
+               'random body trees depth<=4')
     fw.standin(rep, 'recog.py', ['run', 'tree', rep.seed, 2500 if q else 30000],
                'precedence/associativity: real ANTLR parse + visitor vs independent reader of prolog.g4',
                'grammar-derived and corrupted programs; operator trees of every clause body compared')
